@@ -214,9 +214,57 @@ def run_case(case):
             if b == 0:
                 out["sample"] = {"batch": batch, "kinds": kinds, "pre_memoized": pre, "raise_first": raise_first,
                                  "presentation": pres, "store": skind}
+        # ---- a batch whose elements do not all name the same parameters (some leave an optional parameter to its
+        # default, or to a partially applied value, that another element gives explicitly)
+        prefix = "q%d_%d" % (case["seed"], case["idx"])
+        for k in range(4):
+            ffuncs.TABLE["%s|%s" % (prefix, k)] = 100 + k
+        elems = []
+        for _ in range(rng.randint(2, 6)):
+            kw = {"k": rng.randrange(4)}
+            if rng.random() < 0.5:
+                kw["tag"] = rng.choice(["t0", "t1"])
+            if rng.random() < 0.4:
+                kw["scale"] = rng.choice([1, 2])
+            elems.append(kw)
+        how = rng.choice(["full", "partial_name", "partial_tag"])
+        base = {"full": lambda: ffuncs.pair3, "partial_name": lambda: ffuncs.pair3.partial(prefix=prefix),
+                "partial_tag": lambda: ffuncs.pair3.partial(prefix=prefix, tag="t9")}[how]
+        full = [dict(kw, prefix=prefix) if how == "full" else dict(kw) for kw in elems]
+        label = "batch with mixed parameter names %s (%s)" % (elems, how)
+        env.set_env(sc.path("envM1"), default_storage=env.fs_backend(sc.path("M1")))
+        indiv = [outcome_of(lambda kw=kw: base()(**kw)) for kw in full]
+        stateB = store_state(Environment_storage(), ffuncs.pair3)
+        env.set_env(sc.path("envM2"), default_storage=env.fs_backend(sc.path("M2")))
+        mark = REC.mark()
+        got = outcome_of(lambda: base().call_batch([dict(kw) for kw in full], raise_first_exception=False))
+        runs = collections.Counter(e[1][0] for e in REC.since(mark) if e[0] == "pair3")
+        stateA = store_state(Environment_storage(), ffuncs.pair3)
+        out["obs"]["batches_with_mixed_parameter_names"] += 1
+        if got[0] == "raise":
+            fail("batch evaluation raises " + type(got[1]).__name__, "%s: %r" % (label, got[1]))
+        else:
+            for i, (r, o) in enumerate(zip(got[1], indiv)):
+                out["obs"]["slots_compared"] += 1
+                if not same_outcome(("ret", r), o):
+                    fail("a batch slot differs from the individual call",
+                         "%s: slot %d: batch %s, individual %s" % (label, i, domain.describe(r, 80), domain.describe(o, 80)))
+        if set(stateA) != set(stateB):
+            fail("the store after a batch differs from the store after individual calls",
+                 "%s: batch store has %d entries, individual store %d" % (label, len(stateA), len(stateB)))
+        distinct = {json.dumps(kw, sort_keys=True) for kw in full}
+        if sum(runs.values()) > len(distinct):
+            fail("a distinct batch element's body ran the wrong number of times",
+                 "%s: %d body executions for %d distinct elements" % (label, sum(runs.values()), len(distinct)))
     out["obs"] = dict(out["obs"])
     out["sets"] = {k: sorted(v) for k, v in out["sets"].items()}
     return out
+
+
+def Environment_storage():
+    import twosigma.memento as m
+
+    return m.Environment.get().default_cluster.storage
 
 
 def conclude(agg):
